@@ -357,6 +357,8 @@ impl<'a> PGen<'a> {
             }
             7 => emit!(self, ri12(O::SUBI, r, FP, self.g.below(64) as u32)), // caller's frame
             8 => emit!(self, ri12(O::ADDI, r, STK, STK_BUF - self.g.below(9) as u32)), // straddling $sp
+            // a few bytes below $ssp, so that a write starts outside and ends inside the stack frame
+            9 if self.g.bool() => emit!(self, ri12(O::SUBI, r, SSP, 1 + self.g.below(16) as u32)),
             _ => emit!(self, ri12(O::ADDI, r, SSP, 0)),
         }
     }
@@ -887,7 +889,13 @@ impl<'a> PGen<'a> {
                 let (off, len) = if wild { (self.wild_len(300), self.wild_len(300)) } else { (self.g.below(8), self.g.below(100)) };
                 self.load_const(C, off);
                 self.load_const(D, len);
-                emit!(self, r4(O::BLDD, HEAP, B, C, D));
+                if wild && self.g.below(3) == 0 {
+                    // destination the frame does not (fully) own: the zero-filled tail counts too
+                    self.foreign_addr(A);
+                    emit!(self, r4(O::BLDD, A, B, C, D));
+                } else {
+                    emit!(self, r4(O::BLDD, HEAP, B, C, D));
+                }
             }
             _ => {
                 emit!(self, ri12(O::ADDI, B, HEAP, 192));
